@@ -215,6 +215,18 @@ def matchTextAt (s kw : Txt) (dotall : Bool) (i : Nat) : Option Txt :=
 def matchText (s kw : Txt) (dotall : Bool) : Option Txt :=
   (findAll s kw).findSome? (matchTextAt s kw dotall)
 
+/-- the match attempt of `matchTextRest` at the occurrence `i` of `kw`: the captured group, and the text from the END of the
+group on (`string[m.end(1):]`; it starts with the closing quote) -/
+def matchTextRestAt (s kw : Txt) (dotall : Bool) (i : Nat) : Option (Txt × Txt) :=
+  match head s kw i with
+  | none => none
+  | some j0 => (matchTextAt s kw dotall i).map fun w => (w, slice s (j0 + 1 + w.size) s.size)
+
+/-- `m = re.search(kw ?= ?"(.*)"\s*$, s)`: `(m.groups()[0], s[m.end(1):])` — what `_parseNormalTextgrid` keeps of the tier
+header once the name is read (fix A33: the span rows are searched behind the name) -/
+def matchTextRest (s kw : Txt) (dotall : Bool) : Option (Txt × Txt) :=
+  (findAll s kw).findSome? (matchTextRestAt s kw dotall)
+
 /-- `re.split(kw ?\[, s)`: leftmost non-overlapping occurrences of `kw [` or `kw[` -/
 def splitKw (s kw : Txt) : List Txt :=
   let a := kw ++ lit " ["
@@ -230,6 +242,11 @@ def splitKw (s kw : Txt) : List Txt :=
   go (s.size + 1) 0 0 []
 
 def need (o : Option Txt) : Except Err Txt :=
+  match o with
+  | some x => .ok x
+  | none => .error .ParsingError
+
+def needP (o : Option (Txt × Txt)) : Except Err (Txt × Txt) :=
   match o with
   | some x => .ok x
   | none => .error .ParsingError
@@ -266,7 +283,8 @@ def readTierLong (tt : Txt) : Except Err RawTier := do
   let d := splitKw tt (lit (if isI then "intervals" else "points"))
   let hdr := d.headD #[]
   let els := d.drop 1
-  let name ← need (matchText hdr (lit "name") true)      -- MULTILINE | DOTALL since fix A32 (a name may span several lines)
+  -- MULTILINE | DOTALL since fix A32 (a name may span several lines); `header = header[nameMatch.end(1):]` since fix A33
+  let (name, hdr) ← needP (matchTextRest hdr (lit "name") true)
   let name := replace name (lit "\"\"") (lit "\"")
   let st ← need (matchNum hdr (lit "xmin") true)
   let en ← need (matchNum hdr (lit "xmax") true)
